@@ -51,8 +51,12 @@ type c03Case struct {
 	Required    bool   `json:"required"` // the credential the policy requires was proved
 	Suite       string `json:"suite"`    // optional: cipher suite override
 	KeyType     string `json:"keyType"`  // "" (ECDSA) | "rsa"  credentials of the rogue server
-	MixedPSK    bool   `json:"mixedPSK"` // honest server is configured with certificates AND a PSK callback (both suite families enabled)
-	NameKind    string `json:"nameKind"` // server name the honest client is configured with: "" (DNS name) | "ip4" | "ip6" (address literals)
+	Callback    bool   `json:"callback"` // the honest side also installs a VerifyPeerCertificate callback that accepts everything: it adds
+	//                                      a check, it must not replace the library's own verification
+	SrvInsecure bool `json:"srvInsecure"` // the honest SERVER's option set carries InsecureSkipVerify(true) (a client-role setting that
+	//                                      applications put into shared option lists): client chains are verified all the same
+	MixedPSK bool   `json:"mixedPSK"` // honest server is configured with certificates AND a PSK callback (both suite families enabled)
+	NameKind string `json:"nameKind"` // server name the honest client is configured with: "" (DNS name) | "ip4" | "ip6" (address literals)
 }
 
 type c03Result struct {
@@ -417,6 +421,17 @@ func runC03Case(idx int, cs *c03Case) (res c03Result) { //nolint:cyclop,gocognit
 			}
 			otherKey, _ = p.server.PrivateKey.(crypto.Signer)
 		}
+	}
+	if cs.Callback {
+		ok := func([][]byte, [][]*x509.Certificate) error { return nil }
+		if cs.Honest == "c" {
+			co = append(co, WithVerifyPeerCertificate(ok))
+		} else {
+			so = append(so, WithVerifyPeerCertificate(ok))
+		}
+	}
+	if cs.SrvInsecure && cs.Honest == "s" {
+		so = append(so, WithInsecureSkipVerify(true))
 	}
 	r := newLabRun()
 	if err := r.setupWith(co, so); err != nil {
